@@ -10,6 +10,21 @@ use serde_json::json;
 use std::collections::BTreeMap;
 use vh::*;
 
+/// The outputs differ from the plain engine's although the trace shows no cross-context loss at all. Used only to
+/// decide whether to run the same case again with a longer quiescence window (a context thread that was not
+/// scheduled for a while looks exactly like this); the verdict is taken on the last run.
+fn unexplained_output_difference(p: &CProg, events: &[varpulis_runtime::event::Event], out: &RunOut) -> bool {
+    if out.trace.iter().any(|t| t.kind == "dropped") {
+        return false;
+    }
+    let Ok(plain) = run_plain(p, events) else { return false };
+    let mut a: Vec<String> = plain.iter().map(canon).collect();
+    let mut b: Vec<String> = out.outputs.iter().map(canon).collect();
+    a.sort();
+    b.sort();
+    a != b
+}
+
 /// Some forward to another context has neither a matching receive nor a recorded drop.
 fn undelivered_without_drop(out: &RunOut) -> bool {
     let mut got: std::collections::BTreeSet<(String, String, i64)> = Default::default();
@@ -79,7 +94,7 @@ fn main() {
         // an event that was enqueued (no recorded drop) but not yet received when the trace went quiet means the
         // machine was too busy for the quiescence window: run again with a longer one instead of judging
         for longer in [1000u64, 4000] {
-            if out.build_error.is_some() || (out.quiesced && !undelivered_without_drop(&out)) {
+            if out.build_error.is_some() || (out.quiesced && !undelivered_without_drop(&out) && !unexplained_output_difference(&p, &events, &out)) {
                 break;
             }
             rep.add("reruns_with_longer_quiescence_window", 1);
